@@ -13,8 +13,13 @@ def _(p):
 
     fam = [mc.T(f, l) for f, l in p["terms"]]
     df = mc.full_frame(p["a"], p["b"])
-    mm = model_matrix(p["formula"], df, ensure_full_rank=p["efr"], output=p["output"])
-    labels, cells = mc.matrix_cells(mm, p["output"])
+    kw = {"materializer": p["materializer"]} if p.get("materializer") else {}
+    mm = model_matrix(p["formula"], df, ensure_full_rank=p["efr"], output=p["output"], **kw)
+    if p["output"] == "sparse":
+        labels = list(mm.model_spec.column_names)
+        cells = numpy.asarray(mm.todense(), dtype=object).reshape((len(df), len(labels)))
+    else:
+        labels, cells = mc.matrix_cells(mm, p["output"])
     if p["output"] == "pandas" and list(mm.columns) != labels:
         return f"labels-differ-from-spec: {list(mm.columns)} vs {labels}"
     w = mc.world(p["a"], p["b"])
